@@ -128,7 +128,7 @@ def o02_3a(tier):
             ctx.ensure(ctx.close(res[0] * res[0] + res[1] * res[1], tx * tx + ty * ty), "length = radius (not rescaled)")
         return h
     out = [(f"n={n},{'last' if e else 'first'},{fit}", mk(n, e, fit, False))
-           for n in ((3, 4) if tier == "quick" else (3, 4, 5, 6)) for e in (False, True) for fit in ("dlite", "taubinSVD")
+           for n in ((3, 4) if tier == "quick" else (3, 4, 5)) for e in (False, True) for fit in ("dlite", "taubinSVD")
            if tier != "quick" or n == 3 or fit == "dlite"]
     out.append(("axis-between", mk(3, False, "dlite", True)))
     out += [(f"n=3,{'last' if e else 'first'},{fit},vertices-moved-after-construction", mk(3, e, fit, False, moved=True)) for e, fit in ((False, "dlite"), (True, "taubinSVD"))]
